@@ -73,6 +73,33 @@ pub fn run_l2(rep: &Arc<Reporter>, args: &Args) {
             else if top && o.server_bytes > 0 { rep.violation("denied peer received some byte(s) of TLS handshake before the drop", w); }
             else if !top && !admitted { rep.violation("connection whose client random does not match the deny mask was refused", w); }
         }
+        // client random unavailable: a ClientHello split over several TLS records cannot be peeked. With any rule that
+        // needs the random the connection must be denied (fail closed); without such a rule it is served as usual.
+        for (name, rules, want_admitted) in [
+            ("fragmented hello, no client-random rule", vec![(Some("10.0.0.0/8"), None, false)], Some(true)),
+            ("fragmented hello, deny prefix deadbeef", vec![(None, Some("deadbeef"), false)], Some(false)),
+            ("fragmented hello, deny 00/00 (every random)", vec![(None, Some("00/00"), false)], Some(false)),
+            ("fragmented hello, allow prefix aa then nothing", vec![(None, Some("aa"), true)], Some(false)),
+            ("whole hello, deny prefix deadbeef (control: random available, no match)", vec![(None, Some("deadbeef"), false)], Some(true)),
+        ] {
+            let whole = name.starts_with("whole");
+            let e = engine(&rules);
+            let ep2 = start_endpoint(&dir, "127.0.0.1", &hosts, None, vec![], (true, true, false), move |b| b.rules_engine(e)).await;
+            for attempt in 0..2 {
+                let o = tls_connect_opts(ep2.addr, Some("main.test"), &[b"h2", b"http/1.1"], Duration::from_secs(3), if whole { None } else { Some(64) }).await;
+                rep.evals(1);
+                rep.distinct(common::fnv(format!("l2frag|{}|{}", name, attempt).as_bytes()));
+                let admitted = o.stream.is_some();
+                let w = json!({"kind":"rules-wiring","scenario":name,"admitted":admitted,"server_bytes_before_close":o.server_bytes,"error":o.error});
+                match want_admitted {
+                    Some(true) if !admitted => rep.violation(&format!("allowed peer refused: {}", name), w),
+                    Some(false) if admitted => rep.violation("connection admitted although a rule needs a client random that is unavailable (must fail closed)", w),
+                    Some(false) if o.server_bytes > 0 => rep.violation("denied peer received some byte(s) of TLS handshake before the drop", w),
+                    _ => rep.tally(&format!("l2: {} -> {}", name, if admitted { "admitted" } else { "dropped with zero server bytes" }), 1),
+                }
+            }
+            ep2.task.abort();
+        }
         rep.tally("client-random mask experiment: randoms with top bit set", hi);
         rep.tally("client-random mask experiment: randoms with top bit clear", lo);
         if hi == 0 || lo == 0 { rep.inconclusive("client-random experiment saw only one of the two outcomes"); }
